@@ -355,6 +355,26 @@ def flag_tree_value(stmts: List[ast.stmt], name: str, cur: Optional[ast.AST], bo
     return cur
 
 
+def chain_comparisons(e: ast.AST) -> ast.AST:
+    """`a <= v and v <= b`  ->  `a <= v <= b`  (v a plain name: reading it once or twice is the same)."""
+    if isinstance(e, ast.BoolOp) and isinstance(e.op, ast.And):
+        vals = list(e.values)
+        k = 0
+        while k + 1 < len(vals):
+            x, y = vals[k], vals[k + 1]
+            if isinstance(x, ast.Compare) and isinstance(y, ast.Compare) and isinstance(x.comparators[-1], ast.Name) and isinstance(y.left, ast.Name) \
+                    and x.comparators[-1].id == y.left.id and all(isinstance(o, (ast.Lt, ast.LtE)) for o in x.ops + y.ops) or \
+                    isinstance(x, ast.Compare) and isinstance(y, ast.Compare) and isinstance(x.comparators[-1], ast.Name) and isinstance(y.left, ast.Name) \
+                    and x.comparators[-1].id == y.left.id and all(isinstance(o, (ast.Gt, ast.GtE)) for o in x.ops + y.ops):
+                vals[k:k + 2] = [ast.copy_location(ast.Compare(left=x.left, ops=x.ops + y.ops, comparators=x.comparators + y.comparators), x)]
+                continue
+            k += 1
+        if len(vals) == 1:
+            return vals[0]
+        e.values = vals
+    return e
+
+
 def flatten_boolop(e: ast.AST) -> ast.AST:
     if isinstance(e, ast.BoolOp):
         vals = []
@@ -500,6 +520,46 @@ def drop_dead_stores(fn: ast.AST) -> int:
     return count[0]
 
 
+def drop_unused_locals(fn: ast.AST) -> int:
+    """S11: `name = <constant / display of constants / plain name>` where name is never read anywhere in the function."""
+    from .normalize import is_const_expr
+    esc = escaping_names(fn) | params_of(fn)
+    loaded = {n.id for n in ast.walk(fn) if isinstance(n, ast.Name) and isinstance(n.ctx, ast.Load)}
+    if any(isinstance(n, ast.Call) and isinstance(n.func, ast.Name) and n.func.id in ("locals", "vars", "eval", "exec") for n in ast.walk(fn)):
+        return 0
+    count = [0]
+
+    def block(stmts):
+        out = []
+        for st in stmts:
+            if isinstance(st, FUNC):
+                out.append(st)
+                continue
+            for fld in ("body", "orelse", "finalbody"):
+                if getattr(st, fld, None):
+                    setattr(st, fld, block(getattr(st, fld)) or [ast.Pass()])
+            for h in getattr(st, "handlers", []) or []:
+                h.body = block(h.body) or [ast.Pass()]
+            t = plain_assign(st)
+            if t and t not in esc and t not in loaded and (is_const_expr(st.value) or isinstance(st.value, ast.Name)):
+                count[0] += 1
+                continue
+            out.append(st)
+        return out
+    fn.body = block(fn.body) or [ast.Pass()]
+    return count[0]
+
+
+def _leaves(stmts) -> bool:
+    """Control never falls off the end of stmts (return / raise / continue / break on every path)."""
+    for st in stmts:
+        if isinstance(st, (ast.Return, ast.Raise, ast.Continue, ast.Break)):
+            return True
+        if isinstance(st, ast.If) and st.orelse and _leaves(st.body) and _leaves(st.orelse):
+            return True
+    return False
+
+
 def _always_leaves(stmts) -> bool:
     for st in stmts:
         if isinstance(st, (ast.Return, ast.Raise)):
@@ -565,6 +625,7 @@ def simplify_defensive(fn: ast.AST) -> int:
         count = [0]
         count[0] += int_flags(fn)
         count[0] += drop_dead_stores(fn)
+        count[0] += drop_unused_locals(fn)
         count[0] += fold_known_flags(fn)
         bools = boolean_locals(fn)
         tr = _BoolCompare(bools)
@@ -577,6 +638,59 @@ def simplify_defensive(fn: ast.AST) -> int:
         def uses(name):
             return (sum(1 for n in all_names if n.id == name and isinstance(n.ctx, ast.Load)),
                     sum(1 for n in all_names if n.id == name and isinstance(n.ctx, (ast.Store, ast.Del))))
+
+        # temporaries every read of which directly follows its own assignment (same block, next statement, read once there):
+        # each such assignment/read pair can be joined on its own, however many pairs share the name
+        adjacent: Dict[str, bool] = {}
+
+        def survey(stmts):
+            for k, st in enumerate(stmts):
+                if isinstance(st, FUNC):
+                    for n in ast.walk(st):
+                        if isinstance(n, ast.Name):
+                            adjacent[n.id] = False
+                    continue
+                hdr_nodes = []
+                if isinstance(st, (ast.If, ast.While)):
+                    hdr_nodes = [st.test]
+                elif isinstance(st, (ast.For, ast.AsyncFor)):
+                    hdr_nodes = [st.iter, st.target]
+                elif isinstance(st, (ast.With, ast.AsyncWith)):
+                    hdr_nodes = [x for it in st.items for x in (it.context_expr, it.optional_vars) if x is not None]
+                elif isinstance(st, ast.Try):
+                    hdr_nodes = [h.type for h in st.handlers if h.type is not None]
+                elif isinstance(st, ast.Match):
+                    hdr_nodes = [st.subject] + [c.guard for c in st.cases if c.guard is not None]
+                else:
+                    hdr_nodes = [st]
+                prev = plain_assign(stmts[k - 1]) if k > 0 else None
+                seen_here: Dict[str, int] = {}
+                for h in hdr_nodes:
+                    for n in ast.walk(h):
+                        if isinstance(n, ast.Name) and isinstance(n.ctx, ast.Load):
+                            seen_here[n.id] = seen_here.get(n.id, 0) + 1
+                for nm, cnt in seen_here.items():
+                    if nm != prev or cnt != 1:
+                        adjacent[nm] = False
+                    else:
+                        adjacent.setdefault(nm, True)
+                for fld in ("body", "orelse", "finalbody"):
+                    if getattr(st, fld, None):
+                        survey(getattr(st, fld))
+                for h in getattr(st, "handlers", []) or []:
+                    survey(h.body)
+                if isinstance(st, ast.Match):
+                    for c in st.cases:
+                        survey(c.body)
+        survey(fn.body)
+        for n in ast.walk(fn):
+            if isinstance(n, ast.Name) and isinstance(n.ctx, (ast.Store, ast.Del)):
+                pass
+        # every store of such a temporary must be a plain assignment
+        claimed = {id(st.targets[0]) for st in own_nodes(fn) if plain_assign(st)}
+        for n in own_nodes(fn):
+            if isinstance(n, ast.Name) and isinstance(n.ctx, (ast.Store, ast.Del)) and id(n) not in claimed:
+                adjacent[n.id] = False
 
         def block(stmts):
             out: List[ast.stmt] = []
@@ -612,11 +726,17 @@ def simplify_defensive(fn: ast.AST) -> int:
                     # S7
                     if not st.orelse and len(st.body) == 1 and isinstance(st.body[0], ast.If) and not st.body[0].orelse:
                         inner = st.body[0]
-                        st.test = flatten_boolop(ast.copy_location(ast.BoolOp(op=ast.And(), values=[st.test, inner.test]), st.test))
+                        st.test = chain_comparisons(flatten_boolop(ast.copy_location(ast.BoolOp(op=ast.And(), values=[st.test, inner.test]), st.test)))
                         st.body = inner.body
                         count[0] += 1
                 if isinstance(st, ast.While):
                     st.test = strip_bool_in_test(st.test)
+                # S12  if A: ...return  else: REST   ->   if A: ...return ; REST
+                if isinstance(st, ast.If) and st.orelse and _leaves(st.body):
+                    rest = st.orelse
+                    st.orelse = []
+                    stmts[i + 1:i + 1] = rest
+                    count[0] += 1
                 # S1
                 if isinstance(st, ast.Try) and st.handlers and not st.finalbody and all(len(h.body) == 1 and isinstance(h.body[0], ast.Raise) and h.body[0].exc is None for h in st.handlers):
                     count[0] += 1
@@ -643,6 +763,25 @@ def simplify_defensive(fn: ast.AST) -> int:
                             stmts[i] = new
                             count[0] += 1
                             continue
+                # M1  v = A ; if B < v: v = B   ->   v = min(A, B)      (likewise max)
+                if isinstance(st, ast.If) and not st.orelse and len(st.body) == 1 and out and plain_assign(out[-1]) is not None and plain_assign(st.body[0]) == plain_assign(out[-1]) \
+                        and isinstance(st.test, ast.Compare) and len(st.test.ops) == 1 and isinstance(st.test.ops[0], (ast.Lt, ast.Gt)):
+                    v = plain_assign(out[-1])
+                    A, B = out[-1].value, st.body[0].value
+                    l, r = st.test.left, st.test.comparators[0]
+                    same = lambda x, y: ast.dump(x) == ast.dump(y)      # noqa: E731
+                    is_v = lambda x: isinstance(x, ast.Name) and x.id == v      # noqa: E731
+                    kind = None
+                    if same(l, B) and is_v(r):
+                        kind = "min" if isinstance(st.test.ops[0], ast.Lt) else "max"
+                    elif is_v(l) and same(r, B):
+                        kind = "min" if isinstance(st.test.ops[0], ast.Gt) else "max"
+                    if kind and v not in par and isinstance(A, (ast.Name, ast.Constant)) and isinstance(B, (ast.Name, ast.Constant)) and not is_v(A) and not is_v(B):
+                        out[-1].value = ast.copy_location(ast.Call(func=ast.Name(id=kind, ctx=ast.Load()), args=[A, B], keywords=[]), A)
+                        ast.fix_missing_locations(out[-1])
+                        count[0] += 1
+                        stmts[i] = out.pop()
+                        continue
                 # S6b  f = A ; if not f [and B]: f = C   ->   f = A or ([B and] C)
                 if isinstance(st, ast.If) and not st.orelse and len(st.body) == 1 and out and plain_assign(out[-1]) is not None and plain_assign(st.body[0]) == plain_assign(out[-1]):
                     fl = plain_assign(out[-1])
@@ -666,7 +805,7 @@ def simplify_defensive(fn: ast.AST) -> int:
                 if t is not None and t not in par and i + 1 < len(stmts) and not isinstance(st.value, (ast.Yield, ast.YieldFrom, ast.Await)):
                     nxt = stmts[i + 1]
                     hdr = header_of(nxt)
-                    if hdr is not None and uses(t) == (1, 1):
+                    if hdr is not None and (uses(t) == (1, 1) or adjacent.get(t)):
                         lds = [n for n in ast.walk(hdr) if isinstance(n, ast.Name) and n.id == t and isinstance(n.ctx, ast.Load)]
                         if len(lds) == 1 and evaluated_first(hdr, lds[0]):
                             if hdr is lds[0]:
@@ -1224,6 +1363,25 @@ def defunctionalize_call(n: ast.Call, resolve) -> Optional[ast.AST]:
             if cond is None:
                 return None
         return ast.GeneratorExp(elt=ast.Name(id=x, ctx=ast.Load()), generators=[ast.comprehension(target=ast.Name(id=x, ctx=ast.Store()), iter=src, ifs=[cond], is_async=0)])
+    # F11  any(x == ',' or x == ' ' for x in s)  ->  ',' in s or ' ' in s     (one-character string constants: element test and substring test coincide)
+    if q == "builtins.any" and not n.keywords and len(a) == 1 and single_gen(a[0]) and not a[0].generators[0].ifs and isinstance(a[0].generators[0].target, ast.Name) \
+            and _simple(a[0].generators[0].iter):
+        x = a[0].generators[0].target.id
+        parts = list(a[0].elt.values) if isinstance(a[0].elt, ast.BoolOp) and isinstance(a[0].elt.op, ast.Or) else [a[0].elt]
+        ks = []
+        for pt in parts:
+            if isinstance(pt, ast.Compare) and len(pt.ops) == 1 and isinstance(pt.ops[0], ast.Eq):
+                l, r = pt.left, pt.comparators[0]
+                if isinstance(r, ast.Name) and r.id == x:
+                    l, r = r, l
+                if isinstance(l, ast.Name) and l.id == x and isinstance(r, ast.Constant) and isinstance(r.value, str) and len(r.value) == 1:
+                    ks.append(r)
+                    continue
+            ks = None
+            break
+        if ks:
+            tests = [ast.Compare(left=k, ops=[ast.In()], comparators=[copy.deepcopy(a[0].generators[0].iter)]) for k in ks]
+            return tests[0] if len(tests) == 1 else ast.BoolOp(op=ast.Or(), values=tests)
     # F6
     if q == "builtins.next" and not n.keywords and 1 <= len(a) <= 2 and single_gen(a[0]):
         g = a[0].generators[0]
@@ -1367,6 +1525,325 @@ def hoist_lambda_calls(fn: ast.AST) -> int:
             else:
                 out.append(st)
         return out
+    fn.body = block(fn.body)
+    if count[0]:
+        ast.fix_missing_locations(fn)
+    return count[0]
+
+
+# ------------------------------------------------------------------------------------------------ L5 / L6
+def eliminate_jumps(stmts: List[ast.stmt], cont: List[ast.stmt]) -> List[ast.stmt]:
+    """One iteration of a loop body as straight-line code: `continue` and falling off the end go on with `cont` (the remaining
+    iterations), `break` goes on with nothing (what follows the loop follows this code)."""
+    if not stmts:
+        return copy.deepcopy(cont)
+    st, rest = stmts[0], list(stmts[1:])
+    if isinstance(st, ast.Break):
+        return []
+    if isinstance(st, ast.Continue):
+        return copy.deepcopy(cont)
+    if not own_jumps([st]):
+        if isinstance(st, (ast.Return, ast.Raise)):
+            return [st]
+        return [st] + eliminate_jumps(rest, cont)
+    if isinstance(st, ast.If):
+        new = ast.copy_location(ast.If(test=st.test, body=eliminate_jumps(list(st.body) + copy.deepcopy(rest), cont) or [ast.Pass()],
+                                       orelse=eliminate_jumps(list(st.orelse) + rest, cont)), st)
+        return [new]
+    raise ValueError("jump inside " + type(st).__name__)
+
+
+def unroll_search_loops(fn: ast.AST) -> int:
+    """L5: `for i in (0, 1, 2): if p(xs[i]): found = i; break` over a literal tuple of constants (at most 8) whose body leaves
+    with `break`: written out as the if/else chain it abbreviates, the loop variable replaced by each constant."""
+    from .normalize import Subst
+    if not isinstance(fn, (ast.FunctionDef, ast.AsyncFunctionDef)):
+        return 0
+    count = [0]
+
+    def const_elt(e):
+        return isinstance(e, ast.Constant) or (isinstance(e, ast.Tuple) and all(isinstance(x, ast.Constant) for x in e.elts))
+
+    def block(stmts):
+        out = []
+        for st in stmts:
+            if isinstance(st, FUNC):
+                out.append(st)
+                continue
+            for fld in ("body", "orelse", "finalbody"):
+                if getattr(st, fld, None):
+                    setattr(st, fld, block(getattr(st, fld)))
+            for h in getattr(st, "handlers", []) or []:
+                h.body = block(h.body)
+            if isinstance(st, ast.For) and not st.orelse and isinstance(st.iter, ast.Tuple) and 1 <= len(st.iter.elts) <= 8 and all(const_elt(e) for e in st.iter.elts) \
+                    and own_jumps(st.body, (ast.Break,)) and not any(isinstance(x, (ast.Try, ast.With)) and own_jumps([x]) for x in ast.walk(st)):
+                names = [n.id for n in ast.walk(st.target) if isinstance(n, ast.Name)]
+                if not any(stores_in(st.body, nm) for nm in names) and sum(1 for b in st.body for _ in ast.walk(b)) <= 120:
+                    try:
+                        cont: List[ast.stmt] = []
+                        for elt in reversed(st.iter.elts):
+                            m: Dict[str, ast.AST] = {}
+                            if not bind_pattern(st.target, elt, m):
+                                raise ValueError("target")
+                            body = [Subst(m).visit(copy.deepcopy(b)) for b in st.body]
+                            inside = {id(x) for x in ast.walk(st)}
+                            live = {n.id for n in ast.walk(fn) if isinstance(n, ast.Name) and isinstance(n.ctx, ast.Load) and id(n) not in inside}
+                            binds = [ast.copy_location(ast.Assign(targets=[ast.Name(id=k, ctx=ast.Store())], value=copy.deepcopy(v)), st) for k, v in m.items() if k in live]
+                            cont = binds + eliminate_jumps(body, cont)
+                            if sum(1 for b in cont for _ in ast.walk(b)) > 1500:
+                                raise ValueError("size")
+                        for x in cont:
+                            ast.fix_missing_locations(x)
+                        out.extend(cont)
+                        count[0] += 1
+                        continue
+                    except ValueError:
+                        pass
+            out.append(st)
+        return out
+    fn.body = block(fn.body)
+    if count[0]:
+        ast.fix_missing_locations(fn)
+    return count[0]
+
+
+def search_loops_to_any(fn: ast.AST) -> int:
+    """L6: `flag = False ; for x in xs: if C1: flag = True; break ...`  ->  `flag = any(C1 or ... for x in xs)` -- a loop whose only
+    effect is to set one boolean flag and stop at the first element that satisfies a test."""
+    if not isinstance(fn, (ast.FunctionDef, ast.AsyncFunctionDef)):
+        return 0
+    esc = escaping_names(fn) | params_of(fn)
+    count = [0]
+
+    def block(stmts):
+        out = []
+        for st in stmts:
+            if isinstance(st, FUNC):
+                out.append(st)
+                continue
+            for fld in ("body", "orelse", "finalbody"):
+                if getattr(st, fld, None):
+                    setattr(st, fld, block(getattr(st, fld)))
+            for h in getattr(st, "handlers", []) or []:
+                h.body = block(h.body)
+            fk = None
+            if isinstance(st, ast.For) and not st.orelse and isinstance(st.target, ast.Name):
+                # the flag the loop sets: initialised by the closest preceding `flag = <bool>` with only unrelated plain assignments in between
+                wanted = {plain_assign(b.body[0]) for b in st.body if isinstance(b, ast.If) and b.body and plain_assign(b.body[0])}
+                for k in range(len(out) - 1, -1, -1):
+                    t = plain_assign(out[k])
+                    if t is None:
+                        break
+                    if t in wanted and isinstance(out[k].value, ast.Constant) and isinstance(out[k].value.value, bool):
+                        fk = k
+                        break
+                    if any(isinstance(x, ast.Name) and x.id in wanted for x in ast.walk(out[k])) or any(isinstance(x, (ast.Call,)) and not (isinstance(x.func, ast.Name) and x.func.id == "len") for x in ast.walk(out[k])):
+                        break
+            if fk is not None:
+                flag, start = plain_assign(out[fk]), out[fk].value.value
+                tests = []
+                ok = flag not in esc and st.target.id not in esc and st.target.id != flag
+                for b in st.body:
+                    if isinstance(b, ast.If) and not b.orelse and len(b.body) == 2 and plain_assign(b.body[0]) == flag and isinstance(b.body[0].value, ast.Constant) \
+                            and b.body[0].value.value is (not start) and isinstance(b.body[1], ast.Break) \
+                            and not any(isinstance(x, (ast.Call, ast.NamedExpr, ast.Await, ast.Yield)) for x in ast.walk(b.test)) \
+                            and not any(isinstance(x, ast.Name) and x.id == flag for x in ast.walk(b.test)):
+                        tests.append(b.test)
+                    else:
+                        ok = False
+                loads_after = [n for n in ast.walk(fn) if isinstance(n, ast.Name) and n.id == st.target.id and isinstance(n.ctx, ast.Load) and not any(n is x for x in ast.walk(st))]
+                if ok and tests and not loads_after:
+                    cond = tests[0] if len(tests) == 1 else ast.BoolOp(op=ast.Or(), values=tests)
+                    gen = ast.GeneratorExp(elt=cond, generators=[ast.comprehension(target=st.target, iter=st.iter, ifs=[], is_async=0)])
+                    val = ast.Call(func=ast.Name(id="any", ctx=ast.Load()), args=[gen], keywords=[])
+                    if start:
+                        val = ast.UnaryOp(op=ast.Not(), operand=val)
+                    del out[fk]
+                    out.append(ast.copy_location(ast.Assign(targets=[ast.Name(id=flag, ctx=ast.Store())], value=val), st))
+                    ast.fix_missing_locations(out[-1])
+                    count[0] += 1
+                    continue
+            out.append(st)
+        return out
+    fn.body = block(fn.body)
+    return count[0]
+
+
+def fold_local_tables(fn: ast.AST) -> int:
+    """`xs = ("a", "b")` (the only binding of a local) ... `xs[1]`  ->  `"b"`."""
+    if not isinstance(fn, (ast.FunctionDef, ast.AsyncFunctionDef)):
+        return 0
+    from .normalize import is_const_expr
+    par = params_of(fn) | escaping_names(fn)
+    tables: Dict[str, ast.Tuple] = {}
+    for st in own_nodes(fn):
+        t = plain_assign(st)
+        if t and t not in par and isinstance(st.value, ast.Tuple) and st.value.elts and all(is_const_expr(x) for x in st.value.elts) and len(names_in(fn, t)[1]) == 1:
+            tables[t] = st.value
+    if not tables:
+        return 0
+    count = [0]
+
+    class T(ast.NodeTransformer):
+        def visit_Subscript(self, n):
+            self.generic_visit(n)
+            if isinstance(n.ctx, ast.Load) and isinstance(n.value, ast.Name) and n.value.id in tables and isinstance(n.slice, ast.Constant) and type(n.slice.value) is int:
+                tb = tables[n.value.id]
+                if -len(tb.elts) <= n.slice.value < len(tb.elts):
+                    count[0] += 1
+                    return ast.copy_location(copy.deepcopy(tb.elts[n.slice.value]), n)
+            return n
+    T().visit(fn)
+    if count[0]:
+        ast.fix_missing_locations(fn)
+    return count[0]
+
+
+# ------------------------------------------------------------------------------------------------ T2 dispatch on a constant just assigned
+_NOVALUE = object()
+
+
+def const_eval(e: ast.AST):
+    """Value of an expression built from constants, comparisons, not/and/or, unary minus and tuples of those; _NOVALUE otherwise."""
+    import operator as _op
+    if isinstance(e, ast.Constant):
+        return e.value
+    if isinstance(e, ast.Tuple):
+        vs = [const_eval(x) for x in e.elts]
+        return _NOVALUE if any(v is _NOVALUE for v in vs) else tuple(vs)
+    if isinstance(e, ast.UnaryOp):
+        v = const_eval(e.operand)
+        if v is _NOVALUE:
+            return v
+        if isinstance(e.op, ast.Not):
+            return not v
+        if isinstance(e.op, ast.USub) and type(v) in (int, float):
+            return -v
+        return _NOVALUE
+    if isinstance(e, ast.BoolOp):
+        last = _NOVALUE
+        for x in e.values:
+            last = const_eval(x)
+            if last is _NOVALUE:
+                return last
+            if isinstance(e.op, ast.And) and not last or isinstance(e.op, ast.Or) and last:
+                return last
+        return last
+    if isinstance(e, ast.Compare):
+        ops = {ast.Eq: _op.eq, ast.NotEq: _op.ne, ast.Lt: _op.lt, ast.LtE: _op.le, ast.Gt: _op.gt, ast.GtE: _op.ge, ast.Is: _op.is_, ast.IsNot: _op.is_not,
+               ast.In: lambda a, b: a in b, ast.NotIn: lambda a, b: a not in b}
+        left = const_eval(e.left)
+        for o, c in zip(e.ops, e.comparators):
+            right = const_eval(c)
+            if left is _NOVALUE or right is _NOVALUE or type(o) not in ops:
+                return _NOVALUE
+            try:
+                if not ops[type(o)](left, right):
+                    return False
+            except TypeError:
+                return _NOVALUE
+            left = right
+        return True
+    return _NOVALUE
+
+
+def dispatch_on_constant(fn: ast.AST) -> int:
+    """T2: an if-tree whose leaves assign constants to one local v, followed by `if <test of v and constants>: ...`: the second
+    statement is decided in each leaf (v is known there) and what it selects is moved into the leaf."""
+    from .normalize import Subst
+    if not isinstance(fn, (ast.FunctionDef, ast.AsyncFunctionDef)):
+        return 0
+    esc = escaping_names(fn) | params_of(fn)
+    count = [0]
+
+    def const_tree(stmts, v) -> Optional[int]:
+        """number of leaves if stmts is (assignments of constants to v | if-trees of those), else None"""
+        n = 0
+        for st in stmts:
+            if plain_assign(st) == v and const_eval(st.value) is not _NOVALUE and isinstance(st.value, (ast.Constant, ast.UnaryOp)):
+                n += 1
+            elif isinstance(st, ast.If) and not any(isinstance(x, ast.Name) and x.id == v for x in ast.walk(st.test)):
+                a = const_tree(st.body, v)
+                b = const_tree(st.orelse, v) if st.orelse else 0
+                if a is None or b is None:
+                    return None
+                n += a + b
+            elif isinstance(st, ast.Pass):
+                continue
+            else:
+                return None
+        return n
+
+    def test_of_v(e, v) -> bool:
+        return all(isinstance(x, (ast.Compare, ast.BoolOp, ast.UnaryOp, ast.Constant, ast.Tuple, ast.boolop, ast.cmpop, ast.unaryop, ast.expr_context)) or (isinstance(x, ast.Name) and x.id == v)
+                   for x in ast.walk(e)) and any(isinstance(x, ast.Name) and x.id == v for x in ast.walk(e))
+
+    def specialise(S: ast.If, v, c) -> Optional[List[ast.stmt]]:
+        m = {v: ast.Constant(value=c)}
+        val = const_eval(Subst(m).visit(copy.deepcopy(S.test)))
+        if val is _NOVALUE:
+            return None
+        taken = S.body if val else S.orelse
+        if any(stores_in([x], v) for x in taken):
+            return None
+        return [Subst(m).visit(copy.deepcopy(x)) for x in taken]
+
+    def push(stmts, v, cur, S) -> Optional[List[ast.stmt]]:
+        """stmts (a const tree) with S decided at the end of every path; cur = value of v on entry"""
+        out = []
+        for k, st in enumerate(stmts):
+            if plain_assign(st) == v:
+                cur = const_eval(st.value)
+                out.append(st)
+            elif isinstance(st, ast.If):
+                rest = stmts[k + 1:]
+                a = push(list(st.body) + copy.deepcopy(rest), v, cur, S)
+                b = push(list(st.orelse) + rest, v, cur, S)
+                if a is None or b is None:
+                    return None
+                out.append(ast.copy_location(ast.If(test=st.test, body=a or [ast.Pass()], orelse=b), st))
+                return out
+            else:
+                out.append(st)
+        if cur is _NOVALUE:
+            return None
+        tail = specialise(S, v, cur)
+        if tail is None:
+            return None
+        return out + tail
+
+    def block(stmts):
+        stmts = list(stmts)
+        for st in stmts:
+            if isinstance(st, FUNC):
+                continue
+            for fld in ("body", "orelse", "finalbody"):
+                if getattr(st, fld, None):
+                    setattr(st, fld, block(getattr(st, fld)))
+            for h in getattr(st, "handlers", []) or []:
+                h.body = block(h.body)
+        i = 0
+        while i + 1 < len(stmts):
+            st, S = stmts[i], stmts[i + 1]
+            if isinstance(st, ast.If) and isinstance(S, ast.If):
+                targets = {plain_assign(x) for x in ast.walk(st) if isinstance(x, ast.Assign)}
+                v = next(iter(targets)) if len(targets) == 1 else None
+                if v and v not in esc and test_of_v(S.test, v):
+                    leaves = const_tree([st], v)
+                    init = _NOVALUE
+                    if i > 0 and plain_assign(stmts[i - 1]) == v and isinstance(stmts[i - 1].value, (ast.Constant, ast.UnaryOp)):
+                        init = const_eval(stmts[i - 1].value)
+                    size = sum(1 for _ in ast.walk(S))
+                    if leaves and leaves <= 10 and size <= 80:
+                        new = push([st], v, init, S)
+                        if new is not None:
+                            for x in new:
+                                ast.fix_missing_locations(x)
+                            stmts[i:i + 2] = new
+                            count[0] += 1
+                            continue
+            i += 1
+        return stmts
     fn.body = block(fn.body)
     if count[0]:
         ast.fix_missing_locations(fn)
